@@ -645,6 +645,8 @@ def start_items(tier):
         items.append(("PLAYER", t, False, True))
     for t in F.twins_terms(tier):
         items.append(("TWINS", t, False, M.size(t) <= 8))
+    for t in F.groups_terms(tier):
+        items.append(("GROUPS", t, False, False))
     for t in F.twice_terms(tier):
         items.append(("TWICE", t, False, M.size(t) <= 8))
         items.append(("TWICE-DAG", t, True, False))
